@@ -447,3 +447,17 @@ Example env_example :
   /\ gen_env_config_new 8 (fun n => if bytes_eqb n (bs "ROUGHENOUGH_PORT") then Some (bs "65536") else None) = Panic site_gen
   /\ gen_env_config_new 8 (fun n => if bytes_eqb n (bs "ROUGHENOUGH_BATCH_SIZE") then Some (bs " 8") else None) = Panic site_gen.
 Proof. vm_compute. repeat split. Qed.
+
+(* ------------------------------------------------------------------ make_config: the argument selects the source *)
+Definition t_ENV : bytes := [x45; x4e; x56].   (* "ENV" *)
+
+Theorem gen_make_config_model : forall cores env fs arg,
+  gen_make_config cores env fs arg
+  = if bytes_eqb arg t_ENV then env_load cores env else file_load cores (fs arg).
+Proof.
+  intros cores env fs arg. unfold gen_make_config, t_ENV.
+  rewrite gen_env_config_new_model, gen_file_config_new_model.
+  destruct (bytes_eqb arg [x45; x4e; x56]).
+  - destruct (env_load cores env); reflexivity.
+  - destruct (file_load cores (fs arg)); reflexivity.
+Qed.
